@@ -217,22 +217,36 @@ impl Ctx {
     }
 
     fn addr(&mut self, ty: &str, slot: u64) -> SocketAddr {
+        // the reservations are SO_REUSEPORT sockets of one uid: the kernel's port-0 autobind may hand
+        // the same port to two of them. Two slots must never share a real address: retry, keeping the
+        // colliding reservation alive meanwhile so that the next pick differs.
         if ty == "u" {
             if let Some(a) = self.udp_addr.get(&slot) {
                 return *a;
             }
-            let r = reserve_udp().expect("reserve_udp");
-            let a = r.addr;
-            self.udp_res.push(r);
-            self.udp_addr.insert(slot, a);
-            a
+            loop {
+                let r = reserve_udp().expect("reserve_udp");
+                let a = r.addr;
+                let clash = self.udp_addr.values().any(|x| *x == a);
+                self.udp_res.push(r);
+                if !clash {
+                    self.udp_addr.insert(slot, a);
+                    return a;
+                }
+                self.tags.push("address-collision-retried".into());
+            }
         } else {
             if let Some(a) = self.tcp_addr.get(&slot) {
                 return *a;
             }
-            let a = self.w.reserve_addr().expect("reserve_addr");
-            self.tcp_addr.insert(slot, a);
-            a
+            loop {
+                let a = self.w.reserve_addr().expect("reserve_addr");
+                if !self.tcp_addr.values().any(|x| *x == a) && !self.backends.iter().any(|b| b.addr == a) {
+                    self.tcp_addr.insert(slot, a);
+                    return a;
+                }
+                self.tags.push("address-collision-retried".into());
+            }
         }
     }
 
@@ -1668,6 +1682,9 @@ impl Area for WorkerArea {
             v(&["new w", "addl h 0 1", "act h 0", "addcluster 0 1 1 0", "addbackend 0 0 0", "addf h 0 10 0 -", "addcluster 0 1 1 2", "qcluster 0"]),
             v(&["new w", "addl h 0 1", "act h 0", "addcluster 0 1 1 2", "addbackend 0 0 0", "addf h 0 10 0 -", "addcluster 0 1 1 0", "qcluster 0"]),
             v(&["new w", "addl h 0 1", "act h 0", "addcluster 0 1 1 3", "addbackend 0 1 1", "addf h 0 20 0 -", "addcluster 0 1 1 2", "addcluster 0 1 1 2", "qcluster 0"]),
+            // replay f94bbe042c58 (harness artifact: two UDP slots got the same kernel-chosen port): the UDP
+            // frontend of slot 1 must be reported on slot 1 while slot 2 owns another reserved address
+            v(&["new w", "addl4 u 1 2", "rml u 2", "addcluster 2 1 1 0", "addbackend 2 1 1", "qcluster 2"]),
             // an EQUALS rule is deduplicated and removed like the others (F1 of C04 is repaired)
             v(&["new w", "addl h 0 1", "act h 0", "addcluster 0 1 1 0", "addbackend 0 0 0", "addf h 0 40 0 e", "addf h 0 40 0 e", "rmf h 0 40 0 e"]),
             // a clean configuration works end to end
